@@ -539,9 +539,16 @@ func (b *Builder) AllComparisonSeries(existing []*ComparisonSeries, dupeHow int)
 						Values:   concat(cc.Numerator.Values, cell.Values),
 						Residues: union(cc.Numerator.Residues, cell.Residues),
 					}
-					cc.Denominator = &Cell{
-						Values:   concat(cc.Denominator.Values, tr.baseline.Values),
-						Residues: union(cc.Denominator.Residues, tr.baseline.Residues),
+					switch {
+					case tr.baseline == nil:
+						// this trial has no denominator measurements to add
+					case cc.Denominator == nil:
+						cc.Denominator = tr.baseline
+					default:
+						cc.Denominator = &Cell{
+							Values:   concat(cc.Denominator.Values, tr.baseline.Values),
+							Residues: union(cc.Denominator.Residues, tr.baseline.Residues),
+						}
 					}
 					if cc.Date < dateString {
 						cc.Date = dateString
